@@ -131,8 +131,19 @@ def gen_U(rng, valid, for_fn):
                     U = U + E
         else:
             kind = rng.weighted([("stretch", 3), ("shear", 3), ("entry", 2), ("improper", 2), ("neg", 1),
-                                 ("scale", 1)])
+                                 ("scale", 1), ("axis_scale", 1), ("axis_bump", 2), ("axis_entry", 1)])
             R = random_rotation(rng)
+            if kind.startswith("axis"):
+                # perturbations of rotations that contain exact 0 / +-1 entries (signed permutations and
+                # rotations about a coordinate axis)
+                if rng.chance(0.5):
+                    R = axis_rotation(rng)
+                else:
+                    t = rng.uniform(0.1, 3.0)
+                    c_, s_ = math.cos(t), math.sin(t)
+                    R = np.array([[c_, -s_, 0.0], [s_, c_, 0.0], [0.0, 0.0, 1.0]])
+                    pm = axis_rotation(rng)
+                    R = pm.dot(R).dot(pm.T) if rng.chance(0.5) else R
             if kind == "stretch":
                 s = rng.loguniform(3e-3, 0.5)
                 Q = random_rotation(rng)
@@ -150,6 +161,20 @@ def gen_U(rng, valid, for_fn):
                 s = rng.loguniform(3e-3, 0.3)
                 E = np.array([[rng.uniform(-s, s) for _ in range(3)] for _ in range(3)])
                 U = R + E
+            elif kind == "axis_scale":
+                sc = rng.loguniform(3e-3, 0.5) * (1 if rng.chance(0.7) else -1)
+                U = R * (1.0 + sc)
+            elif kind == "axis_bump":
+                U = R.copy()
+                ones = [(i, j) for i in range(3) for j in range(3) if abs(abs(R[i, j]) - 1.0) < 1e-12]
+                cells_ = ones if (ones and rng.chance(0.8)) else [(rng.below(3), rng.below(3))]
+                i, j = rng.choice(cells_)
+                d = rng.loguniform(3e-3, 0.5)
+                sign = 1.0 if U[i, j] >= 0 else -1.0
+                U[i, j] += sign * d if rng.chance(0.7) else -sign * d
+            elif kind == "axis_entry":
+                E = np.array([[rng.uniform(-1, 1) for _ in range(3)] for _ in range(3)])
+                U = R + E * rng.loguniform(3e-3, 0.3)
             elif kind == "improper":
                 d = [1.0, 1.0, 1.0]
                 d[rng.below(3)] = -1.0
@@ -164,7 +189,9 @@ def gen_U(rng, valid, for_fn):
                 continue
             if abs(det) < 0.05:
                 continue
-        if hazard_free(for_fn, U):
+        if (not valid) or hazard_free(for_fn, U):
+            # for invalid inputs a hazard of the unguarded code only matters while the switch is off:
+            # it is recorded with the input and relaxes exactly that judgement
             return kind, U
     raise core.HarnessError("could not generate U for %s" % for_fn)
 
@@ -210,8 +237,10 @@ def gen_input(rng, fnname, valid):
     """-> dict(cls, valid, kind, args=[encoded...])"""
     import numpy as np
     cls = FN_INPUT[fnname]
+    off_hazard = False
     if cls in ("U", "Ucell"):
         kind, U = gen_U(rng, valid, fnname)
+        off_hazard = not hazard_free(fnname, U)
         args = [core.enc_array(U)]
         if cls == "Ucell":
             args.append([core.fhex(x) for x in random_cell(rng)])
@@ -281,7 +310,7 @@ def gen_input(rng, fnname, valid):
         args = [core.enc_array(UB)]
     else:
         raise AssertionError(cls)
-    return {"cls": cls, "valid": bool(valid), "kind": kind, "args": args}
+    return {"cls": cls, "valid": bool(valid), "kind": kind, "args": args, "off_hazard": bool(off_hazard and not valid)}
 
 
 def simplest_input(fnname, valid):
@@ -371,17 +400,21 @@ def generate(rng, tier, index):
     usable = [fk for fk in FNKEYS if fk.split(".")[1] in by_fn and
               (fk in fns or fk.replace("tools.", "laue.") in fns or fk.replace("laue.", "tools.") in fns)]
     ops = []
-    p_assign = rng.choice([0.15, 0.3, 0.5])
+    p_assign = rng.choice([0.15, 0.3, 0.5, 0.7])
+    # how often the client reads `activated` back after an operation (a read is itself an event that a
+    # lazily refreshed switch could depend on, so it must not happen after every step in every run)
+    p_read = rng.choice([1.0, 0.5, 0.2, 0.0])
     for _ in range(n_ops):
+        rd = 1 if rng.chance(p_read) else 0
         if rng.chance(p_assign):
-            ops.append(["assign", _pick_assign(rng, allow_invalid_assign)])
+            ops.append(["assign", _pick_assign(rng, allow_invalid_assign), rd])
         else:
             fk = rng.choice(usable)
             iid = rng.choice(by_fn[fk.split(".")[1]])
             if allow_preempt and rng.chance(0.4):
-                ops.append(["pcall", fk, iid, rng.below(1 << 16), _pick_assign(rng, allow_invalid_assign)])
+                ops.append(["pcall", fk, iid, rng.below(1 << 16), _pick_assign(rng, allow_invalid_assign), rd])
             else:
-                ops.append(["call", fk, iid])
+                ops.append(["call", fk, iid, rd])
     return {"property": PROPERTY, "config": {"fault_free": not (allow_invalid_assign or allow_preempt)},
             "inputs": inputs, "ops": ops}
 
@@ -442,8 +475,15 @@ def execute(trace):
 
     violation = None
     # every run starts from the documented initial state, set through the public API
+    # prologue (part of every history): assign True, read it back.  Together with the epilogue below it
+    # makes a run independent of whatever an earlier run in the same worker process left behind.
     try:
         xfab.CHECKS.activated = True
+        if xfab.CHECKS.activated is not True:
+            raise core.HarnessError("switch does not read True after the prologue assignment: state leaked from an "
+                                    "earlier run in this process, or the switch is broken beyond what a history can isolate")
+    except core.HarnessError:
+        raise
     except Exception as e:  # the reset itself is part of the property (valid assignment)
         violation = {"clause": "valid assignment rejected", "site": "assign",
                      "detail": "reset to True raised %s" % type(e).__name__}
@@ -557,6 +597,9 @@ def execute(trace):
         else:
             may_raise = True in states
             may_pass = False in states
+            if outcome == "ValueError" and not may_raise and inp.get("off_hazard"):
+                count("relax.unguarded_code_may_raise_valueerror_itself")
+                return
             if outcome == "ValueError" and not may_raise:
                 raise _Violation("ValueError raised while switched off", fk,
                                  "%s kind=%s" % (inp["cls"], inp["kind"]))
@@ -582,7 +625,9 @@ def execute(trace):
                         count("fault.invalid_assignment")
                     events.append([opi, "assign", tag, raised])
                     model_assign(tag, raised, "assign")
-                    check_switch("assign")
+                    if len(op) < 3 or op[2]:
+                        check_switch("assign")
+                        count("reads.after_assign")
                 elif kind in ("call", "pcall"):
                     fk, iid = op[1], op[2]
                     if iid >= len(inputs) or inputs[iid] is None:
@@ -599,13 +644,13 @@ def execute(trace):
                             count("fault.exception_out_of_guarded_call")
                         events.append([opi, "call", fk, iid, outcome, core.digest(canon_value(value))[:16]])
                         judge(fk, iid, inp, outcome, value, {on}, fk)
-                        check_switch(fk)
+                        if len(op) < 4 or op[3]:
+                            check_switch(fk)
                     else:
                         k, tag = op[3], op[4]
                         # pass 1: plain traced call, counts the pre-emption points and is itself judged
                         outcome, value, nline, _ = call(fk, inp, inject=(-1, None))
                         judge(fk, iid, inp, outcome, value, {on}, fk)
-                        check_switch(fk)
                         if nline == 0:
                             raise core.HarnessError("no line events traced inside %s" % fk)
                         at = k % nline
@@ -631,7 +676,9 @@ def execute(trace):
                         judge(fk, iid, inp, outcome, value, {before, after}, fk)
                         if not inp["valid"] and before != after:
                             count("probe.preempt_outcome.%s" % ("saw_before" if (outcome == "ValueError") == before else "saw_after"))
-                        check_switch("after-preempted-" + fk)
+                        if len(op) < 6 or op[5]:
+                            check_switch("after-preempted-" + fk)
+            check_switch("end-of-history")
             if rot_digest() != rot0:
                 count("probe.rotations_cache_changed")
         except _Violation as v:
@@ -640,7 +687,11 @@ def execute(trace):
         finally:
             sys.settrace(None)
             try:
+                # epilogue: leave a settled, read-back True for the next run of this worker
+                xfab.CHECKS.activated = False
+                _ = xfab.CHECKS.activated
                 xfab.CHECKS.activated = True
+                _ = xfab.CHECKS.activated
             except Exception:
                 pass
     probes["same_switch_object"] = bool(tools.CHECKS is xfab.CHECKS and laue.CHECKS is xfab.CHECKS
@@ -674,7 +725,7 @@ def shrink_candidates(trace):
     for i, op in enumerate(ops):
         if op[0] == "pcall":
             t = copy.deepcopy(trace)
-            t["ops"][i] = ["call", op[1], op[2]]
+            t["ops"][i] = ["call", op[1], op[2], op[5] if len(op) > 5 else 1]
             yield t
             if op[3] != 0:
                 t = copy.deepcopy(trace)
